@@ -107,8 +107,8 @@ func vpC13Pool(n, kind, shapes int) []Item {
 		}
 		ids = append(ids, c)
 		shape := 0
-		if kind != 1 && shapes > 0 {
-			shape = vpChoice(shapes)
+		if shapes > 0 {
+			shape = vpChoice(shapes) // an IRI list is asked about, and given, items of every shape too: it holds their ids
 		} else if kind != 1 {
 			shape = 4 + vpChoice(-shapes) // negative: only the populated shapes
 		}
@@ -209,10 +209,10 @@ func vpC13Step(kind, maxPre, shapes int) {
 }
 
 func vpH_C13_hist_items()  { vpC13Hist(0, 3, 2, 2) }
-func vpH_C13_hist_iris()   { vpC13Hist(1, 3, 2, 1) }
+func vpH_C13_hist_iris()   { vpC13Hist(1, 3, 2, 3) }
 func vpH_C13_hist_coll()   { vpC13Hist(2, 2, 2, 2) }
 func vpH_C13_step_items()  { vpC13Step(0, 2, 2) }
-func vpH_C13_step_iris()   { vpC13Step(1, 2, 1) }
+func vpH_C13_step_iris()   { vpC13Step(1, 2, 3) }
 func vpH_C13_step_coll()   { vpC13Step(2, 2, 2) }
 func vpH_C13_step_ocoll()  { vpC13Step(3, 2, 2) }
 func vpH_C13_step_page()   { vpC13Step(4, 2, 2) }
